@@ -82,18 +82,21 @@ Proof.
     split; [cbn [length]; lia|]. lia.
 Qed.
 
-Theorem owning_new_stocked k ind ev bufsz addrs :
-  k <= 15 -> bufsz <> 0 -> bufsz < two32 -> lenN addrs = 2 ^ k ->
+Lemma InvFl_set_indices s chains fl v : InvFl s chains fl -> v < two16 -> InvFl (qset_indices s v) chains fl.
+Proof. intros H Hv. unfold InvFl in *. cbn. tauto. Qed.
+
+(* v: where the free-running indices start (0 for a real queue; any value, to cover the wrap-around) *)
+Theorem owning_new_stocked k ind ev bufsz addrs v :
+  k <= 15 -> bufsz <> 0 -> bufsz < two32 -> lenN addrs = 2 ^ k -> v < two16 ->
   exists s evs chains,
-    owning_new_loop addrs 0 bufsz (qnew (2 ^ k) ind ev) = (Ok tt, s, evs)
+    owning_new_loop addrs 0 bufsz (qset_indices (qnew (2 ^ k) ind ev) v) = (Ok tt, s, evs)
     /\ Reach s chains evs /\ Stocked s chains bufsz.
 Proof.
-  intros Hk Hb0 Hb32 Hl.
-  assert (HR0 : Reach (qset_indices (qnew (2 ^ k) ind ev) 0) [] []) by (apply R_new; [exact Hk|reflexivity]).
-  assert (E0 : qset_indices (qnew (2 ^ k) ind ev) 0 = qnew (2 ^ k) ind ev) by reflexivity.
-  rewrite E0 in HR0.
-  assert (HI0 : InvFl (qnew (2 ^ k) ind ev) [] (seqN 0 (length addrs))).
-  { replace (length addrs) with (N.to_nat (2 ^ k)) by (unfold lenN in Hl; lia).
+  intros Hk Hb0 Hb32 Hl Hv.
+  assert (HR0 : Reach (qset_indices (qnew (2 ^ k) ind ev) v) [] []) by (apply R_new; assumption).
+  assert (HI0 : InvFl (qset_indices (qnew (2 ^ k) ind ev) v) [] (seqN 0 (length addrs))).
+  { apply InvFl_set_indices; [|exact Hv].
+    replace (length addrs) with (N.to_nat (2 ^ k)) by (unfold lenN in Hl; lia).
     (* the witness chosen in qnew_inv *)
     pose proof (qnew_inv k ind ev Hk) as [fl Hfl].
     assert (fl = seqN 0 (N.to_nat (2 ^ k))); [|subst; exact Hfl].
@@ -116,7 +119,7 @@ Proof.
   destruct (owning_new_loop_spec bufsz Hb0 Hb32 addrs 0 _ [] [] HR0 HI0 ltac:(constructor))
     as (s & evs & chains & Hrun & HR & HI & Hst & Hlen & Hsz).
   exists s, evs, chains. cbn [app] in *. split; [exact Hrun|]. split; [exact HR|].
-  split; [exact Hst|]. rewrite Hsz. cbn [qnew q_size]. unfold lenN in *. lia.
+  split; [exact Hst|]. rewrite Hsz. cbn [qset_indices qnew q_size]. unfold lenN in *. lia.
 Qed.
 
 (* in a fully stocked queue every token below SIZE heads an outstanding chain *)
@@ -142,29 +145,27 @@ Qed.
 
 (* OwningQueue::poll, for every device behaviour: the used-ring view (u_idx, u_id, u_len), the share
    answer for the re-posted buffer and the suppression data are arbitrary *)
-Theorem poll_stocked s chains h bufsz u_idx u_id u_len addr ae uf o s' evs :
+Theorem poll_stocked s chains h bufsz u_idx u_id u_len addr ae uf hres o s' evs :
   Reach s chains h -> Stocked s chains bufsz -> bufsz <> 0 -> bufsz < two32 ->
-  owning_poll s bufsz u_idx u_id u_len addr ae uf = (o, s', evs) ->
-  match o with
-  | Ok None => s' = s /\ evs = [] /\ q_last_used s = w16 u_idx
-  | Ok (Some (len, tok)) =>
-      q_last_used s <> w16 u_idx /\ tok = w16 u_id /\ tok < q_size s /\ len = w32 u_len /\ len <= bufsz
-      /\ q_last_used s' = w16 (q_last_used s + 1)
-      /\ exists chains' h', Reach s' chains' h' /\ Stocked s' chains' bufsz
-  | Err e =>
-      (e = EWrongToken /\ q_size s <= w16 u_id /\ s' = s /\ evs = [])
-      \/ (e = EIoError /\ bufsz < w32 u_len /\ w16 u_id < q_size s
-          /\ q_last_used s' = w16 (q_last_used s + 1)
-          /\ exists chains' h', Reach s' chains' h' /\ Stocked s' chains' bufsz)
-  | Panic | UB => False
-  end.
+  owning_poll s bufsz u_idx u_id u_len addr ae uf hres = (o, s', evs) ->
+  (* nothing pending, or an id outside the queue: nothing changes *)
+  (q_last_used s = w16 u_idx -> o = Ok None /\ s' = s /\ evs = [])
+  /\ (q_last_used s <> w16 u_idx -> q_size s <= w16 u_id -> o = Err EWrongToken /\ s' = s /\ evs = [])
+  (* otherwise the completion at the head of the used ring is consumed: the handler sees exactly
+     (recorded length, token) if the length fits the buffer, an oversized length is an IoError, and in
+     EVERY case - whatever the handler answers - the buffer is posted again and the queue is stocked *)
+  /\ (q_last_used s <> w16 u_idx -> w16 u_id < q_size s ->
+       o = (if bufsz <? w32 u_len then Err EIoError else handler_result hres (w32 u_len) (w16 u_id))
+       /\ q_last_used s' = w16 (q_last_used s + 1)
+       /\ exists chains' h', Reach s' chains' h' /\ Stocked s' chains' bufsz).
 Proof.
   intros HR Hst Hb0 Hb32 Hrun.
   unfold owning_poll, owning_pop, peek_used, can_pop in Hrun.
   destruct (N.eqb_spec (q_last_used s) (w16 u_idx)) as [E1|E1]; cbn [negb] in Hrun.
-  { inversion Hrun; subst. auto. }
+  { inversion Hrun; subst. split; [auto|]. split; intros; contradiction. }
   destruct (N.leb_spec (q_size s) (w16 u_id)) as [E2|E2].
-  { inversion Hrun; subst. left. auto. }
+  { inversion Hrun; subst. split; [intros; contradiction|]. split; [auto|]. intros; lia. }
+  split; [intros; contradiction|]. split; [intros; lia|]. intros _ _.
   destruct (stocked_has_chain s chains h bufsz (w16 u_id) HR Hst E2) as (pre & c & post & -> & Hhead).
   destruct Hst as [Hst Hlen].
   assert (Hc : stock_chain bufsz c).
@@ -179,7 +180,7 @@ Proof.
   { apply Forall_app in Hst. destruct Hst as [A B]. inversion B; subst. apply Forall_app. split; assumption. }
   assert (Hlen1 : lenN (pre ++ post) + 1 = q_size s1).
   { rewrite Hsz, <- Hlen, !lenN_app, lenN_cons. lia. }
-  (* re-post, whatever the length was *)
+  (* re-post, whatever the length was and whatever the handler answered *)
   unfold owning_readd in Hrun. rewrite Hsz in Hrun.
   destruct (N.leb_spec (q_size s) (w16 u_id)) as [E4|_]; [lia|].
   destruct (lifo_token s pre c post h [] [obuf (w16 u_id) bufsz 0] u_idx u_id u_len s1 evs1
@@ -209,10 +210,9 @@ Proof.
       rewrite andb_false_r. cbn [length free_take c_idxs c_head c_tbl c_bufs].
       rewrite Hfh, Hhead. repeat split. exists addr. reflexivity.
     - rewrite lenN_app, lenN_cons, lenN_nil, Hsz2. lia. }
-  destruct (N.ltb_spec bufsz (w32 u_len)) as [E3|E3]; inversion Hrun; subst o s' evs; clear Hrun.
-  - right. split; [reflexivity|]. split; [exact E3|]. split; [exact E2|]. split; [now rewrite Hlu2|]. exact Hstock2.
-  - split; [exact E1|]. split; [reflexivity|]. split; [exact E2|]. split; [reflexivity|]. split; [exact E3|].
-    split; [now rewrite Hlu2|]. exact Hstock2.
+  set (result := if bufsz <? w32 u_len then Err EIoError else handler_result hres (w32 u_len) (w16 u_id)) in *.
+  destruct result eqn:Er; inversion Hrun; subst o s' evs; clear Hrun;
+    (split; [reflexivity|]; split; [now rewrite Hlu2|exact Hstock2]).
 Qed.
 
 (* Before the repair a completion carrying a length above BUFFER_SIZE left its buffer un-posted. A device
@@ -236,8 +236,8 @@ Qed.
 Example poll_fixed_on_witness :
   exists s0 evs0 s1 evs1 s2 evs2,
     owning_new_loop [100; 200] 0 8 (qnew 2 false false) = (Ok tt, s0, evs0)
-    /\ owning_poll s0 8 1 0 9 300 0 0 = (Err EIoError, s1, evs1)
-    /\ owning_poll s1 8 2 0 4 400 0 0 = (Ok (Some (4, 0)), s2, evs2)
+    /\ owning_poll s0 8 1 0 9 300 0 0 0 = (Err EIoError, s1, evs1)
+    /\ owning_poll s1 8 2 0 4 400 0 0 0 = (Ok (Some (4, 0)), s2, evs2)
     /\ In (OQ (QUnshare 300 0 8 true)) evs2 /\ q_num_used s2 = 2.
 Proof.
   do 6 eexists. split; [vm_compute; reflexivity|]. split; [vm_compute; reflexivity|].
